@@ -126,6 +126,7 @@ type RangeIter struct {
 }
 
 func (a *Arr) get(w *World, i int) *Term {
+	w.touch(a.id, false)
 	if i < 0 || i >= a.n {
 		panic(fmt.Sprintf("engine: byte index %d out of array bound %d", i, a.n))
 	}
@@ -338,6 +339,7 @@ func isAggType(t types.Type) bool {
 
 // load reads the value stored in c (deep copy for aggregates).
 func (w *World) load(c *Cell) Value {
+	w.touch(c.id, false)
 	if c.fields != nil || isAggType(c.typ) {
 		if _, ok := c.typ.Underlying().(*types.Array); ok {
 			a := ArrayV{e: make([]Value, len(c.fields))}
@@ -357,6 +359,7 @@ func (w *World) load(c *Cell) Value {
 
 // store writes v into c.
 func (w *World) store(c *Cell, v Value) {
+	w.touch(c.id, true)
 	if c.fields != nil || isAggType(c.typ) {
 		switch x := v.(type) {
 		case Struct:
